@@ -54,7 +54,7 @@ m = {
  "version": 1,
  "setup_cmd": "cd /verif/engine/frontend && GOFLAGS=-mod=mod GOPROXY=off GOSUMDB=off GOTOOLCHAIN=local go build -o /verif/engine/bin/ssa2json .",
  "hooks": {"guard": "verif", "enable": "no source hooks: harnesses are injected as overlay files (go/packages Overlay for encoding, go test -overlay for replay)",
-           "baseline_off_cmd": "cd /repo && go test -vet=off -count=1 -timeout 25m ./...", "source_commits": [], "add_only": True},
+           "baseline_off_cmd": "cd /repo && GOFLAGS=-mod=mod GOPROXY=off GOSUMDB=off go test -vet=off -count=1 -timeout 25m ./...", "source_commits": [], "add_only": True},
  "engines": [{"name": "symgo", "path": "engine/", "serves_properties": sorted(CLAIMS), "kind_free_text": "go/ssa -> JSON frontend (Go, x/tools v0.29.0) + path-forking symbolic executor over z3 bit-vectors (Python), goroutine/channel scheduler model, native tape replay"}],
  "checks": checks,
  "not_applicable": na,
